@@ -18,7 +18,7 @@ SUPPORTS = {
         'blobs': [(0, 0), (0, 1), (1, 0), (4, 4), (4, 5), (3, 5), (3, 4)]}, 'kmax': 4},
 }
 SUPPORTS['quick'] = dict(SUPPORTS['thorough'], kmax=3)
-CHAINS = ['one', 'two_mono', 'two_seg', 'tilt_chain', 'blocktilt']
+CHAINS = ['one', 'two_mono', 'two_seg', 'tilt_chain', 'blocktilt', 'signed']
 PROPS = [dict(shape=(5, 5), prop_shape=None, oversample=2), dict(shape=(6, 5), prop_shape=(3, 4), oversample=1),
          dict(shape=(7, 7), prop_shape=(2, 2), oversample=1)]
 
@@ -76,7 +76,16 @@ def build_chain(tier, cfg, seed, segmented):
         full = seg_mask(shape, pix, rgs)
         for k in range(full.shape[0]):
             opd = opd + full[k] * ([1, 0, 2, 3][k] * op.DU / Z) * rr * DX
-    p1 = lentil.Pupil(amplitude=amp.copy(), opd=opd.copy(), mask=np.array(mask, copy=True), pixelscale=DX, focal_length=Z)
+    if cfg['chain'] == 'signed':
+        # amplitude transmission with sign flips (a pi phase step written into the amplitude); the monolithic description
+        # lets the plane derive its mask from the amplitude
+        flips = np.where((np.arange(shape[0])[:, None] + 2 * np.arange(shape[1])[None, :]) % 3 == 0, -1.0, 1.0)
+        amp = amp * flips
+        if not (segmented and max(rgs) > 0):
+            mask = None
+    p1 = lentil.Pupil(amplitude=amp.copy(), opd=opd.copy(), mask=None if mask is None else np.array(mask, copy=True), pixelscale=DX, focal_length=Z)
+    if cfg['chain'] == 'rescaled':
+        p1 = p1.rescale(2)             # a plane with a history: built, resampled, then used
     if cfg['fit']:
         p1 = p1.fit_tilt()
     if cfg['chain'] == 'tilt_chain':
@@ -86,7 +95,7 @@ def build_chain(tier, cfg, seed, segmented):
         t2 = (-1.7 * op.DU / Z, 1.2 * op.DU / Z)
         return lentil.Wavefront(WL, tilt=list(t1)) * p1 * lentil.Tilt(x=t2[0], y=t2[1])
     w = lentil.Wavefront(WL) * p1
-    if cfg['chain'] not in ('one', 'blocktilt'):
+    if cfg['chain'] not in ('one', 'blocktilt', 'rescaled', 'signed'):
         amp2 = rm.generic_real(shape, seed, tag=53, lo=0.5, hi=1.0)
         opd2 = rm.generic_real(shape, seed, tag=54, lo=-0.1, hi=0.1) * WL
         # second aperture: everything except the first support pixel and one extra corner
@@ -107,6 +116,9 @@ def build_chain(tier, cfg, seed, segmented):
 
 def model_field(tier, cfg, seed, drop_singletons=False):
     shape, pix, union, amp, opd = arrays(tier, cfg['support'], seed)
+    if cfg['chain'] == 'signed':
+        flips = np.where((np.arange(shape[0])[:, None] + 2 * np.arange(shape[1])[None, :]) % 3 == 0, -1.0, 1.0)
+        amp = amp * flips
     f = op.phasor(amp, opd, WL, union)
     if drop_singletons:
         rgs = cfg['rgs']
@@ -114,7 +126,7 @@ def model_field(tier, cfg, seed, drop_singletons=False):
             members = [p for p, bb in zip(pix, rgs) if bb == b]
             if len(members) == 1 and tuple(members[0]) != (shape[0] // 2, shape[1] // 2) and max(rgs) > 0:
                 f[members[0]] = 0
-    if cfg['chain'] not in ('one', 'tilt_chain', 'blocktilt'):
+    if cfg['chain'] not in ('one', 'tilt_chain', 'blocktilt', 'rescaled', 'signed'):
         amp2 = rm.generic_real(shape, seed, tag=53, lo=0.5, hi=1.0)
         opd2 = rm.generic_real(shape, seed, tag=54, lo=-0.1, hi=0.1) * WL
         m2 = np.ones(shape); m2[pix[0]] = 0; m2[-1, 0] = 0
@@ -173,7 +185,11 @@ def chk_chain(case, acc, seed):
     # 1. before propagation: same field on the pupil plane
     fs, fm = wseg.field, wmono.field
     bad_pupil = False
-    if cfg['fit']:
+    if cfg['chain'] == 'rescaled':
+        if rm.maxerr(fs, fm) > 1e-9 * (1 + np.max(np.abs(fm))):
+            bad_pupil = True
+            report(f'segmented:pupil-field:rescaled', f'after rescale(2) the segmented and the monolithic plane give different pupil-plane fields (max diff {rm.maxerr(fs, fm):.3e})', None)
+    elif cfg['fit']:
         # fitted tilt is carried as metadata: the pupil-plane arrays legitimately differ; compared after propagation only.
         # a dropped one-pixel segment is still visible as missing support
         if single and np.count_nonzero(fs) < np.count_nonzero(fmod):
@@ -219,7 +235,7 @@ def chk_chain(case, acc, seed):
             if rm.maxerr(Is[region], Im[region]) > tol * (1 + np.max(np.abs(vm))):
                 acc.violation(f'segmented:intensity:{cfg["chain"]}:{"fit" if cfg["fit"] else "nofit"}', dict(case, prop=k),
                               f'intensity differs between segmented and monolithic description by {rm.maxerr(Is[region], Im[region]):.3e}')
-            if not cfg['fit'] and cfg['chain'] != 'tilt_chain':
+            if not cfg['fit'] and cfg['chain'] not in ('tilt_chain', 'rescaled'):
                 shape_out = (pk['shape'][0] * pk['oversample'], pk['shape'][1] * pk['oversample'])
                 alpha = op.alpha_exact(DX, du, WL, Z, pk['oversample'])
                 ref = op.RefPlane(fmod, alpha, max(shape_out) // 2 + 2).on_grid(shape_out)
